@@ -1899,7 +1899,8 @@ class RepeatingEngine(Engine):
                     # As a remedy, use up any self._stateDict['repeatRetries'] before considering that
                     # the Engine is really finished when it does not terminate successfully after all of its
                     # producers have finished.
-                    if did_i_execute and my_process.returncode == 0 :
+                    # VV: my_process is None when the task could not even be launched (that counts as a failed attempt)
+                    if did_i_execute and my_process is not None and my_process.returncode == 0 :
                         self.kill()
                     elif self._suicide:
                         self.log.info("Servicing my \"kill-after-producers-done-delay\"")
